@@ -6,7 +6,7 @@ From Coq Require Import ZArith List Bool Relations.Relation_Operators.
 Import ListNotations.
 From ClapModel Require Import Base.Bytes Base.Machine.
 From ClapModel Require Import Parse.Cmd Parse.Build Parse.Valid Parse.Matcher Parse.Errors Parse.Validator Parse.Parser.
-From ClapModel Require Import ParseProofs.Relations ParseProofs.RelationsTree ParseProofs.RelationsClauses ParseProofs.RelationsComplete.
+From ClapModel Require Import ParseProofs.Relations ParseProofs.RelationsTree ParseProofs.RelationsClauses ParseProofs.RelationsComplete ParseProofs.RelationsFamilies.
 From ClapModel Require Import ParseProofs.ValidateTotal.
 From ClapModel Require Import ParseProofs.Safe ParseProofs.Invariant ParseProofs.Totality ParseProofs.TotalityMain ParseProofs.IndexInv.
 From ClapModel Require Import ParseProofs.Globals.
@@ -417,3 +417,68 @@ Theorem C03_static_nonvacuous :
                  /\ validate (build_self s_cmd) (mt st) = VErr EMissingRequiredArgument i_r).
 Proof. exact static_nonvacuous. Qed.
 Print Assumptions C03_static_nonvacuous.
+
+(** ---------------------------------------------------------------------------------------
+    THE TWO FINDINGS AS FAMILIES OF DEFINITIONS (round 2; ParseProofs/RelationsFamilies.v).
+    [f1_family c]: some [overrides_with] list names a group id.
+    [f2_family c]: some arg overrides ANOTHER arg and one of the two belongs to a group.
+    [group_safe c] = neither.  Both findings go through one function, [Parser::remove_overrides].
+
+    FULL STATEMENT (kept visible; NOT proved -- carried by the differential run and the oracle):
+      forall c0 toks st, plain c0 = true -> valid c0 = true ->
+        (every level of the built tree is [group_safe]) -> run_level c0 toks = ROk st ->
+        coherent_b (build_self c0) (mt st) = true            (hence [RelationsM], by
+                                                              [C03_validate_sound_members])
+    Proved here (_partial = the step that both findings go through): which entries
+    [remove_overrides] can remove at all (every command); outside the two families it removes
+    neither a group's own entry nor the entry of another arg that belongs to a group, so it
+    preserves the coherence of every group not containing the occurring arg (whose own entry
+    and groups are rebuilt by [start_custom_arg] right after).  Missing for the full statement:
+    coherence as an invariant of the token loop (the [start_custom_arg] step and the traversal). *)
+Theorem C03_remove_overrides_frame : forall c a m k,
+  ~ In k (a_overrides a) ->
+  (forall ov, find_arg c k = Some ov -> ~ In (a_id a) (a_overrides ov)) ->
+  fm_get k (mt_args (remove_overrides c a m)) = fm_get k (mt_args m).
+Proof. exact remove_overrides_frame. Qed.
+Print Assumptions C03_remove_overrides_frame.
+
+Theorem C03_group_safe_keeps_group_partial : forall c, group_safe c = true -> forall a m x g,
+  In a (c_args c) -> group_of c x g ->
+  fm_get x (mt_args (remove_overrides c a m)) = fm_get x (mt_args m).
+Proof. exact remove_overrides_keeps_group. Qed.
+Print Assumptions C03_group_safe_keeps_group_partial.
+
+Theorem C03_group_safe_keeps_member_partial : forall c, group_safe c = true -> forall a m k,
+  find_arg c (a_id a) = Some a -> k <> a_id a -> is_some (find_arg c k) = true -> in_some_group c k = true ->
+  fm_get k (mt_args (remove_overrides c a m)) = fm_get k (mt_args m).
+Proof. exact remove_overrides_keeps_member. Qed.
+Print Assumptions C03_group_safe_keeps_member_partial.
+
+Theorem C03_group_safe_coherent_partial : forall c, group_safe c = true -> forall a m g,
+  rel_wf c = true -> find_arg c (a_id a) = Some a -> In g (c_groups c) -> find_arg c (g_id g) = None ->
+  ~ In (a_id a) (g_args g) ->
+  (present m (g_id g) <-> present_members m g) ->
+  (present (remove_overrides c a m) (g_id g) <-> present_members (remove_overrides c a m) g).
+Proof. exact remove_overrides_coherent. Qed.
+Print Assumptions C03_group_safe_coherent_partial.
+
+(** the refutation witnesses stand: each lies in exactly its own family, and its incoherence is
+    produced by that single call of [remove_overrides] on a coherent matcher; a definition with an
+    override that fires AND a group, outside both families, stays coherent *)
+Theorem C03_families_witnesses :
+  f1_family (build_self f1_cmd) = true /\ f2_family (build_self f1_cmd) = false
+  /\ (let m := entry [(i_b, flag_entry SCmdLine); (i_g, group_entry i_b)] in
+      coherent_b (build_self f1_cmd) m = true
+      /\ coherent_b (build_self f1_cmd) (remove_overrides (build_self f1_cmd) (built_arg f1_cmd i_a) m) = false)
+  /\ f2_family (build_self f2_cmd) = true /\ f1_family (build_self f2_cmd) = false
+  /\ (let m := entry [(i_a, flag_entry SCmdLine); (i_g, group_entry i_a)] in
+      coherent_b (build_self f2_cmd) m = true
+      /\ coherent_b (build_self f2_cmd) (remove_overrides (build_self f2_cmd) (built_arg f2_cmd i_c) m) = false)
+  /\ valid gs_cmd = true /\ group_safe (build_self gs_cmd) = true
+  /\ (exists st, run_level gs_cmd [dd [97;97]; dd [100;100]; dd [99;99]] = ROk st
+                 /\ coherent_b (build_self gs_cmd) (mt st) = true
+                 /\ check_explicit (mt st) i_g PIsPresent = true
+                 /\ check_explicit (mt st) i_d PIsPresent = false
+                 /\ check_explicit (mt st) i_c PIsPresent = true).
+Proof. exact families_witnesses. Qed.
+Print Assumptions C03_families_witnesses.
